@@ -6,6 +6,8 @@
 From Coq Require Import List Arith.
 Import ListNotations.
 Require MayV.Sync.ChanSpscModel MayV.Sync.ChanSpscInv MayV.Sync.ChanSpscThm MayV.Sync.ChanSpscSpur.
+Require MayV.Sync.ChanMpscModel MayV.Sync.ChanMpscInv MayV.Sync.ChanMpscThm MayV.Sync.ChanMpscAccept MayV.Sync.ChanMpscTime MayV.Sync.ChanMpscTimeAccept.
+From Coq Require Import NArith ZArith.
 
 (* ======================================== spsc ======================================== *)
 Module Spsc.
@@ -70,3 +72,44 @@ Example C06_spsc_cancelled_receiver_drop_drops_the_value_once :
   Reach true s /\ ralive (R s) = false /\ q s = [] /\ rcvd s = [] /\ drpd s = [0] /\ sent s = [0].
 Proof. exact cancelled_receiver_drop_drops_the_value_once. Qed.
 End Spsc.
+
+(* ======================================== mpsc, timed ======================================== *)
+Module MpscTime.
+Import MayV.Sync.ChanMpscModel MayV.Sync.ChanMpscInv MayV.Sync.ChanMpscThm MayV.Sync.ChanMpscAccept MayV.Sync.ChanMpscTime MayV.Sync.ChanMpscTimeAccept.
+Open Scope N_scope.
+
+(* the timed overlay (clock, deadline of recv_max_until, deadline of each timed park, `remaining`) only restricts
+   the base model: every timed run is a run of ChanMpscModel, so every C06 / C07 mpsc theorem holds along it *)
+Theorem C06_mpsc_timed_runs_are_model_runs : forall ts, TReach ts -> Reach (base ts).
+Proof. exact treach_base. Qed.
+Print Assumptions C06_mpsc_timed_runs_are_model_runs.
+
+(* (c) Timeout only at / after the deadline: when recv_timeout(d) has answered Timeout the clock is at or past the
+   deadline the call computed, which is at least d after the clock at the call *)
+Theorem C06_mpsc_timeout_only_after_deadline : forall ts, TReach ts ->
+  rapi (R (base ts)) = ATimed -> rp (R (base ts)) = RIdle -> rres (R (base ts)) = RTimeout ->
+  t0 ts + dur ts <= dl ts /\ dl ts <= now ts /\ t0 ts + dur ts <= now ts.
+Proof. exact mpsc_timeout_only_after_deadline. Qed.
+Print Assumptions C06_mpsc_timeout_only_after_deadline.
+
+(* the BlockerSpec timeout verdict: the timer wakes the suspended receiver only at / after the park's deadline *)
+Theorem C06_mpsc_timer_fires_only_after_park_deadline : forall ts ts', tstep ts (A (Fire RT)) = Some ts' -> pdl ts <= now ts.
+Proof. exact mpsc_timer_fires_only_after_park_deadline. Qed.
+Print Assumptions C06_mpsc_timer_fires_only_after_park_deadline.
+
+(* tie: every state along an accepted (timed) trace of the real code is a reachable state of the timed model and
+   its base component a reachable state of ChanMpscModel *)
+Theorem C06_mpsc_accepted_timed_traces_are_model_runs : forall tr l, taccept_allm tm_initm tr = Some l ->
+  forall sx, In sx l -> TReach (fst sx) /\ Reach (base (fst sx)).
+Proof. exact taccepted_trace_reaches. Qed.
+Print Assumptions C06_mpsc_accepted_timed_traces_are_model_runs.
+
+Example C06_mpsc_timeout_at_deadline :
+  let ts := trun tinit (sch_timeout ++ [A (RDl false); A (RDl true)]) in
+  TReach ts /\ rres (R (base ts)) = RTimeout /\ now ts = 12 /\ dl ts = 12 /\ t0 ts = 0 /\ dur ts = 10.
+Proof. exact timeout_at_deadline. Qed.
+Example C06_mpsc_early_timer_is_refused :
+  let ts := trun tinit (firstn 9 sch_timeout) in
+  TReach ts /\ rp (R (base ts)) = RWait /\ now ts = 11 /\ pdl ts = 12 /\ tstep ts (A (Fire RT)) = None.
+Proof. exact early_timer_is_refused. Qed.
+End MpscTime.
